@@ -138,7 +138,8 @@ impl<'a> Eng<'a> {
         let first_c03 = issues.iter().filter(|i| i.property == "C03" && i.kind == "observed-values").map(|i| i.seq).min();
         let first_c01 = issues.iter().filter(|i| i.property == "C01" && i.kind == "node-input").map(|i| i.seq).min();
         let c03_is_consequence = matches!((first_c01, first_c03), (Some(a), Some(b)) if a < b);
-        let has_c03 = issues.iter().any(|i| i.property == "C03") && !c03_is_consequence;
+        // (a swallowed state error is both: the read is wrong (C03 / C11) and a program that must fail does not (C01))
+        let has_c03 = issues.iter().any(|i| i.property == "C03" && i.kind != "read-should-have-failed") && !c03_is_consequence;
         for i in issues {
             if c03_is_consequence && i.property == "C03" && i.kind == "observed-values" {
                 self.rep.count("suppressed.c03_downstream_of_c01");
